@@ -463,10 +463,29 @@ func PoolMiss() bool {
 
 func chanKey(ch any) uintptr { return ptrOf(ch) }
 
+// digest renders a channel payload for the log (used by the response slice to compare what was
+// sent with what was received)
+func digest(v any) string {
+	s := fmt.Sprintf("%v", v)
+	s = strings.Map(func(r rune) rune {
+		if r == ' ' || r == '\n' || r == '\t' {
+			return '_'
+		}
+		return r
+	}, s)
+	if len(s) > 80 {
+		s = s[:80]
+	}
+	if s == "" {
+		s = "-"
+	}
+	return s
+}
+
 func Send[T any](site int, owner any, ch chan<- T, v T) {
 	Do(site, "send", ch, owner, func() bool { return ch != nil && len(ch) < cap(ch) }, func() string {
 		ch <- v // panics if closed, like the real thing
-		return ""
+		return digest(v)
 	})
 }
 
@@ -514,7 +533,7 @@ func Recv[T any](site int, owner any, ch <-chan T) (v T, ok bool) {
 			panic("vt: recv not ready")
 		}
 		if ok {
-			return "1"
+			return "1 " + digest(v)
 		}
 		return "0"
 	})
